@@ -19,8 +19,11 @@ COMPONENTS_SEQ = {
 }
 
 
-def seq_spec(pid, level, rule, profile, oracle_factory, nontrivial_fn=None, world_kw=None, world_fn=None, enumerated=False, **kw):
+def seq_spec(pid, level, rule, profile, oracle_factory, nontrivial_fn=None, world_kw=None, world_fn=None, enumerated=False, actors_fn=None, **kw):
     def run_one(seed, run, keep=True):
+        if actors_fn is not None:
+            res = engine.run_walk(pid, seed, run, profile, oracle_factory, actors_fn, world_fn=world_fn, world_kw=dict(world_kw or {}), nontrivial_fn=nontrivial_fn)
+            return runner.result_to_dict(res, keep_trace=True)
         if enumerated:
             res = engine.run_enumerated(pid, seed, run, profile, oracle_factory, world_kw=dict(world_kw or {}), nontrivial_fn=nontrivial_fn)
             return runner.result_to_dict(res, keep_trace=True)
@@ -74,7 +77,7 @@ _REG = {}
 
 
 def _build():
-    from .oracles import c01, c02, c03, c09, c10
+    from .oracles import c01, c02, c03, c09, c10, c13
 
     _REG["C02"] = seq_spec(
         "C02",
@@ -161,6 +164,31 @@ def _build():
         runs={"quick": 500, "thorough": 12000},
         assumptions=["fault positions and the catalogue are enumerated completely per base history; base histories are sampled", "state comparison covers timeline, phase references and shift times, EOM blocks, mode flags (incl. parametrized), declared/available channels and the canonical call log"],
         expected_probes=["state_pending_fall", "state_open_eom", "state_slm_pending", "state_near_max_seq", "state_measured", "restart_after_failed_call"],
+    )
+
+    def c13_world(rng):
+        from . import world as W
+
+        r = rng.random()
+        if r < 0.45:
+            dev = {"kind": "builtin", "name": rng.choice(["AnalogDevice", "DigitalAnalogDevice", "MockDevice", "MockDevice"])}
+        elif r < 0.8:
+            dev = W.gen_device(rng, mode="virtual", xy_p=0.5)
+        else:
+            dev = W.gen_device(rng, mode="physical")
+        reg = W.gen_register(rng, n_min=2, n_max=4, dim3_p=0.0)
+        return {"device": dev, "register": reg}
+
+    _REG["C13"] = seq_spec(
+        "C13",
+        "exploration",
+        "typestate walks: a seeded walker attempts every building / inspection operation (arguments otherwise valid) from every reachable mode on physical, virtual-reusable and XY-capable devices; each outcome is compared with the three-valued RefType model (MUST_ACCEPT / MUST_REFUSE / DONT_CARE) written from the statement; non-trivial = the walk visits >=4 distinct modes; distinct = distinct concrete op traces",
+        A.make_profile(max_steps=45),
+        lambda: [c13.C13()],
+        nontrivial_fn=c13.nontrivial,
+        world_fn=c13_world,
+        actors_fn=lambda ctx, rng: [(c13.TypestateActor(45), 1.0)],
+        assumptions=["refusal reasons the statement does not mention are DONT_CARE", "MUST_ACCEPT is only claimed for calls with safely-inside arguments and >=3000 ns of room below max_sequence_duration"],
     )
 
 
